@@ -9,16 +9,17 @@ CONSTANTS
   SectorSize = 32
   MaxFaults = 1
   MaxRetry = 1
+  Session = FALSE
   Kinds = {"T2"}
   Sizes = {3}
-  Pads = {0, 2}
+  Pads = {0, 2, 4}
   Props = {0}
   CtlFroms = {}
   MemSizes = {1}
   LockBits = {}
   CtlTypes = {2}
   TwoCtl = FALSE
-  OldLens = {1, 5}
+  OldLens = {1, 5, 9}
 INVARIANT W_CutNew
 INVARIANT W_CutOld
 INVARIANT W_CutEmpty
